@@ -14,6 +14,7 @@ Oracle (normwise, per batch member and column; A = float64 dense reference, X = 
       and, when no NumericalWarning was emitted, additionally the mean relative residual < cg_tolerance (+ drift).
   left factor: ||X - L A^{-1} B|| bounded by ||L|| times the solve error bound (through the float64 reference solve).
 """
+import copy
 import math
 import warnings
 from unittest import mock
@@ -100,6 +101,22 @@ def cases(draw, tier):
         r = draw(gen.head_first_recipes("pd", max_depth=max_depth, exclude=ex, max_dim=6))
     else:
         r = draw(gen.recipes("pd", max_depth=max_depth, exclude=ex, max_dim=6))
+    scaled = None
+    if not chol_upper and draw(st.integers(0, 6)) == 0:
+        # the same operator at a very small overall magnitude 2**e (exact power-of-two factors on the defining tensors of
+        # homogeneous classes): the direct solves are scale-equivariant.  (Only judged when no CG runs, see check.)
+        e = draw(st.sampled_from([-24, -36, -48, -72]))
+        if draw(st.booleans()):
+            # (the classes with a structure-specific direct solve, at sizes that have factors, over plain factors)
+            cfg_s = gen.Cfg(dt=draw(st.sampled_from(["f64", "f64", "f32"])), max_dim=6, exclude=ex)
+            hd_s = draw(st.sampled_from(SCALED_HEADS))
+            n_s = draw(st.sampled_from([4, 4, 6]))
+            b_s = draw(st.sampled_from([(), (), (2,)]))
+            if hd_s in gen._applicable(cfg_s, "pd", n_s, n_s, b_s, 2):
+                r = gen.call_maker(hd_s, draw, cfg_s, "pd", n_s, n_s, b_s, 2)
+        r2 = copy.deepcopy(r)
+        if _scale_to(r2, e):
+            r, scaled = r2, e
     shape = refmodel.shape(r)
     dt = R.dtype_of(r)
     n = shape[-1]
@@ -113,6 +130,10 @@ def cases(draw, tier):
         case["cell"] = {"max_cholesky_size": draw(st.sampled_from(([max(node_sizes)] if node_sizes else []) + [n - 1]))}
     if chol_upper:
         case["cell"] = {}
+    if scaled is not None:
+        case["scaled"] = scaled
+        if n > 1 and (not case["cell"] or r["op"] in _SCALE_SAME + _SCALE_KRON) and draw(st.integers(0, 3)) > 0:
+            case["cell"] = {"max_cholesky_size": n - 1}  # the structure-specific route instead of the dense Cholesky
     if "lanczos_structured_solve" in _open_triggers() and TRIGGERS["lanczos_structured_solve"](case):
         case["cell"] = {k: v for k, v in case["cell"].items() if k != "max_cholesky_size"}
     if draw(st.integers(0, 3)) == 0 and entry in ("solve", "free") and kind != "vector":
@@ -121,6 +142,34 @@ def cases(draw, tier):
         lb = tuple(rshape[:-2])  # the left factor shares the batch shape of the right-hand side ("... O N" / "... N P")
         case["lhs"] = gen.flit(draw, gen.Cfg(dt=dt), tuple(lb) + (o, n), -8, 8)
     return case
+
+
+SCALED_HEADS = ("KroneckerAddedDiag", "KroneckerAddedDiag", "KroneckerAddedDiag", "KroneckerAddedDiag", "Kronecker", "KroneckerDiag", "SumKronecker", "AddedDiag", "BlockDiag", "Diag")
+_SCALE_LEAF = {"Dense": "t", "Minimal": "t", "Diag": "d", "ConstantDiag": "c", "Toeplitz": "c"}
+_SCALE_SAME = ("Sum", "PsdSum", "AddedDiag", "KroneckerAddedDiag", "SumKronecker")
+_SCALE_BASE = ("BlockDiag", "BlockInterleaved", "BatchRepeat", "SumBatch", "ConstantMul")
+_SCALE_KRON = ("Kronecker", "KroneckerDiag")
+
+
+def _scale_to(r, e):
+    """Scale the matrix of recipe r by 2**e in place (exactly); False if some node is not homogeneous in its tensors."""
+    op = r["op"]
+    if op in _SCALE_LEAF:
+        l = r[_SCALE_LEAF[op]]
+
+        def mul(x):
+            return [mul(y) for y in x] if isinstance(x, list) else x * 2.0**e
+
+        l["lit"] = mul(l["lit"])
+        return True
+    if op in _SCALE_SAME:
+        return all(_scale_to(c, e) for c in r["args"])
+    if op in _SCALE_BASE:
+        return _scale_to(r["base"], e)
+    if op in _SCALE_KRON:
+        k = len(r["args"])
+        return e % k == 0 and all(_scale_to(c, e // k) for c in r["args"])
+    return False
 
 
 def strategy(tier):
@@ -236,6 +285,12 @@ def check(case):
 
     # ---- error bound
     normA = lmax
+    if "scaled" in case:
+        labels.append("scaled:%d:%s" % (case["scaled"], "cg" if used_cg else "direct"))
+        if used_cg:
+            # linear_cg works with absolute thresholds on the normalised system (eps = 1e-10 on p^T A p): at this magnitude
+            # it is outside its stated accuracy floor (C08); only the direct routes are judged on scaled operators
+            return {"nontrivial": False, "labels": labels + ["skipped:scaled_cg"], "key": "skip"}
     if used_cg:
         if dtname == "f32" and kappa > 1e4:
             return {"nontrivial": False, "labels": labels + ["skipped:f32_cg_kappa"], "key": "skip"}
